@@ -23,7 +23,50 @@ def run(ctx):
     res = p_hist.finish(ctx, "C10", cases, diffs,
         "(a) random values of 18 structures written through a fresh encoder: returned count and bytes vs an independent encoder; (b) random "
         "exporter histories: per output, the sum of the values returned by the buffer_*, write_block and rotate_output calls while it was open "
-        "must equal its size (+1 when closed by destruction); empty outputs sum to 0", related=())
+        "must equal its size (+1 when closed by destruction); empty outputs sum to 0; (c) the same sums for gzip / xz outputs (named and descriptor, "
+        "hundreds of malformed messages with random payloads per output, rotations) against the size of their independent decompression", related=())
+    # (c) compressed outputs, named and descriptor: the counts are of UNCOMPRESSED bytes, so per output the values returned while it was open
+    #     must sum to the size of what an independent gzip / xz decompression of it yields (+1 when closed by destruction) - with contents
+    #     that do not compress (tens of KB of random payloads per output), so that the compressor hands back more than one scratch buffer's
+    #     worth at a time and a writer that does not feed it everything shows
+    import p_C14
+    from concurrent.futures import ThreadPoolExecutor
+    plain = common.build_impl("plain")
+    zc = []
+    for i in range(8 if tier == "quick" else 120):
+        comp, kind = ("gzip", "xz")[i % 2], ("fd", "name")[(i // 2) % 2]
+        ls, sums, cur = ["CASE z", "X new %s %s 1 %d" % (kind, comp, rng.choice([7, 24, 10000]))], [], 1
+        plan = []
+        for seg in range(rng.choice([1, 2, 3])):
+            for q in range(rng.choice([120, 300])):
+                ls.append("X mm %s %d" % (bytes(rng.getrandbits(8) for _ in range(rng.choice([150, 250]))).hex(), q)); plan.append(cur)
+            if rng.random() < 0.6: ls.append("X wb"); plan.append(cur)
+            if seg < 2 and rng.random() < 0.7: ls.append("X rot %d %d" % (cur + 1, rng.choice([0, 1]))); plan.append(cur); cur += 1
+        ls.append("X end")
+        zc.append({"id": "z%d" % i, "script": ls, "plan": plan, "comp": comp, "kind": kind, "last": cur, "meta": {"kind": "compressed-output/%s/%s" % (kind, comp)}})
+    def one(c):
+        il, files, rc = common.run_w(plain["drvw"], c["script"], timeout=600)
+        return c, il, files, rc
+    with ThreadPoolExecutor(max_workers=common.NPROC) as ex:
+        for c, il, files, rc in ex.map(one, zc):
+            res_lines = il[2:2 + len(c["plan"])]           # after CASE, X new: one result per planned call
+            why = None
+            if rc != 0 or len(res_lines) != len(c["plan"]) or any(not l.startswith("r ") for l in res_lines): why = "the exporter failed on a compressed output: %r" % il[-3:]
+            else:
+                sums = {}
+                for o, l in zip(c["plan"], res_lines): sums[o] = sums.get(o, 0) + int(l[2:])
+                ext = ".gz" if c["comp"] == "gzip" else ".xz"
+                for o in range(1, c["last"] + 1):
+                    fn = ("out%d%s" % (o, ext)) if c["kind"] == "name" else "fd%d" % o
+                    data = files.get(fn, b"")
+                    try: size = len(p_C14.decompress_strict(c["comp"], data)) if data else 0
+                    except Exception as e: why = "output %s is not one complete %s stream: %s" % (fn, c["comp"], e); break
+                    want = sums.get(o, 0) + (1 if (o == c["last"] and sums.get(o, 0) > 0) else 0)
+                    if size != want: why = "output %d (%s, %s): the calls made while it was open returned %d bytes in all%s, its decompressed content has %d bytes" % (o, c["kind"], c["comp"], sums.get(o, 0), " (+1 for the break written at destruction)" if o == c["last"] and sums.get(o, 0) > 0 else "", size); break
+            c["oracle"] = [("C10", why)] if why else []
+            if why: res["fails"].append((c["id"], c, why, il[-6:]))
+    ctx["report"].cov["distribution"] = dict(ctx["report"].cov.get("distribution", {}), **{"compressed-output": len(zc)})
+    ctx["report"].cov["evaluations"] += len(zc)
     ctx["report"].cov["evaluations"] += len(scases)
     ctx["report"].cov["distinct_nontrivial"] += len(set(c["script"][0] for c in scases))
     res["diffs"] = d1 + res["diffs"]; res["fails"] = f1 + res["fails"]
